@@ -829,6 +829,9 @@ class AbsExpression(FunctionExpression):
         return "abs"
 
     def operate(self, value: NumberType) -> NumberType:
+        # Python integers are exact (np.absolute wraps at the 64-bit minimum)
+        if isinstance(value, int):
+            return abs(value)
         return np.absolute(value)
 
 
